@@ -340,8 +340,12 @@ func (p *Plugin) out(workerData *pipeline.WorkerData, batch *pipeline.Batch) err
 
 	dataArr := root.AddFieldNoAlloc(root, "data").MutateToArray()
 	batch.ForEach(func(event *pipeline.Event) {
-		dataArr.AddElementNoAlloc(root).MutateToNode(event.Root.Node)
+		// copy by value: send() removes fields from these elements and a retried batch
+		// must find its events untouched (MutateToNode would share the nodes with the event)
+		data.outBuf, _ = event.Encode(data.outBuf[:0])
+		dataArr.AddElementNoAlloc(root).MutateToJSON(root, string(data.outBuf))
 	})
+	data.outBuf = data.outBuf[:0]
 
 	code, err := p.send(root)
 	if err != nil {
